@@ -48,10 +48,14 @@ fn main() {
                     Kind::Blk => 4,
                     _ => 3,
                 };
+                let mut k_construct = 0;
                 for usage in 0..=max_usage {
                     let mut cs = base.clone();
                     cs.usage = usage;
                     k_allocs = run(&cs, format!("fault-free, {} usage steps then drop", usage), &mut c, &mut ev, &mut classes);
+                    if usage == 0 {
+                        k_construct = k_allocs;
+                    }
                 }
                 let n_cmds = gpu_cmds.get();
                 // Every k-th allocation failing.
@@ -61,6 +65,13 @@ fn main() {
                     cs.usage = max_usage;
                     cs.fail_at = Some(k);
                     run(&cs, format!("DMA allocation #{} of {} fails", k, k_allocs), &mut c, &mut ev, &mut classes);
+                    // One of the constructor's own allocations: construction must report it
+                    // (without a usage history the case is judged for "failure ignored").
+                    if k < k_construct {
+                        let mut c0 = base.clone();
+                        c0.fail_at = Some(k);
+                        run(&c0, format!("DMA allocation #{} of the constructor's {} fails", k, k_construct), &mut c, &mut ev, &mut classes);
+                    }
                     // The same on a device that a previous owner left running and whose reset
                     // takes a moment to show in the status register.
                     cs.left_running = true;
